@@ -25,6 +25,7 @@ one() {
   bad=""; det=""
   for i in $(seq -w 1 20); do
     out="$(VERIF_DIR="$snap" VERIF_REPO="$repo" "$snap/bin/bklverif" check "C$i" quick 2>&1)"; rc=$?
+    for again in 1 2; do [ $rc -eq 2 ] || break; sleep 5; out="$(VERIF_DIR="$snap" VERIF_REPO="$repo" "$snap/bin/bklverif" check "C$i" quick 2>&1)"; rc=$?; done
     if [ $rc -ne 0 ]; then bad="$bad C$i"; det="$det$(echo "$out" | grep '^VIOLATION' | sed 's/replay=[^ ]* //' | head -3 | sed "s/^/    /")"$'\n'; fi
   done
   patch -s -R -p1 -d "$repo" < "$p"
